@@ -23,8 +23,8 @@ TRUSTED = [
 ASSUMES = ["method selectors and field names are distinct (protoc guarantees it): hypothesis [methods_wf]",
            "the model's request fields are not members of a real oneof (there, assignment also clears the sibling members; the oneof case "
            "is exercised by the direct oracle only: witness_oneof)",
-           "C18_populate_iff_unset_or_empty assumes the uuid stream yields non-empty strings and speaks about singular fields; the repeated "
-           "case is the _refuted statement"]
+           "C18_populate_iff_unset_or_empty assumes the uuid stream yields non-empty strings and speaks about singular fields "
+           "(every field of an accepted entry is singular: C18_accepted_fields_singular)"]
 
 IMPORTS = "From GV Require Import Model.Uuid."
 SIG_REPEATED = "uuid.repeated_string_field_accepted"
@@ -142,7 +142,7 @@ def valid_fields_of(desc, sel, spec=False):
     m = desc["methods"][sel]
     if m["fields"] is None:
         return []
-    return [f["name"] for f in m["fields"] if f["string"] and not f["required"] and f["uuid4"] and not (spec and f["repeated"])]
+    return [f["name"] for f in m["fields"] if f["string"] and not f["required"] and f["uuid4"] and not f["repeated"]]
 
 
 def gen_settings(r, desc, kind):
@@ -328,8 +328,8 @@ def systematic_settings(r, desc, full):
         out.append(("single-bad-field", lst))
     for good in (spec_valid if full else spec_valid[:2]):
         out.append(("single-good-field", [{"selector": sel, "auto_populated_fields": [good]}]))
-    for rep in [n for n in valid if n not in spec_valid]:
-        out.append(("repeated-field", [{"selector": sel, "auto_populated_fields": [rep]}]))
+    for rep in [f["name"] for f in desc["methods"][sel]["fields"] if f["repeated"] and f["string"] and f["uuid4"] and not f["required"]]:
+        out.append(("repeated-field", [{"selector": sel, "auto_populated_fields": [rep]}]))      # the former gap, alone in its entry
     for s2 in [s for s, m in desc["methods"].items() if m["cs"] or m["ss"]]:
         out.append(("single-streaming", [other, {"selector": s2, "auto_populated_fields": ["request_id"]}]))
         out.append(("streaming-no-fields", [{"selector": s2, "auto_populated_fields": []}, other]))
@@ -441,9 +441,13 @@ def call_api(r):
         svc.rpc(rpc, m.fqn, book.fqn, http=http, body=body, sigs=[",".join(sig)] if sig else [])
         candidates = [n for n, kw in ids if kw.get("uuid4")]
         auto = r.sample(candidates, r.randint(1, len(candidates)))
+        if not methods:          # the first method of every library lists a proto3-optional and a plain field
+            for must in ("opt_id", "request_id"):
+                if must not in auto:
+                    auto.insert(r.randint(0, len(auto)), must)
         if r.random() < 0.15:
             auto = auto + [auto[0]]                      # a field listed twice
-        listed = r.random() < 0.85
+        listed = r.random() < 0.85 or not methods
         if listed:
             e = {"selector": f"{PKG}.Library.{rpc}", "auto_populated_fields": auto}
             if r.random() < 0.25:
@@ -501,7 +505,9 @@ def coq_method(m):
 def caller_states(r, m):
     """Valuations the caller passes: per string id field  None (unset) | '' | value."""
     ids = [f["name"] for f in m["fields"] if f["name"] != "parent"]
-    states = [{n: None for n in ids}, {n: "" for n in ids}, {n: f"mine-{n}" for n in ids}]
+    opt = {f["name"] for f in m["fields"] if f["optional"]}
+    states = [{n: None for n in ids}, {n: "" for n in ids}, {n: f"mine-{n}" for n in ids},
+              {n: ("" if n in opt else None) for n in ids}]      # proto3-optional fields explicitly set to "": must be left alone
     for _ in range(2):
         states.append({n: r.choice([None, None, "", "given-" + n, "1b4e28ba-2fa1-4d3b-a3f5-ef19b5a7633b"]) for n in ids})
     return states
@@ -573,6 +579,8 @@ def eval_call(ctx, D, i, b64, settings, c, res, checks, pending, generated):
                 else:
                     generated.append((val, label, k, n))
             else:
+                if listed and f["optional"] and given == "":
+                    ctx.features[f"optional-set-empty-listed-{kind}"] += 1
                 want_present, want_val = (given is not None, given or "") if f["optional"] else (bool(given), given or "")
                 if (present, val) != (want_present, want_val):
                     why = "a caller-provided value was altered" if given else ("a field that is not auto-populated was touched" if not listed else "an optional field set to the empty string was overwritten")
@@ -679,11 +687,15 @@ def run_calls(ctx, n_libs, seed_tag="C18-lib"):
                f"({len(checks)} comparisons over {len(jobs)} generated libraries, {nfiles} cases files)",
                not failing and not errors and len(checks) > 0, "; ".join((failing + errors)[:5]), "T2")
     ctx.notes.setdefault("call_disagreements", []).extend(failing[:10])
+    missing = [k for k in ("grpc", "grpc_asyncio", "rest") if not ctx.features.get(f"optional-set-empty-listed-{k}")]
+    ctx.oblige("inputs: a listed proto3-optional field explicitly set to the empty string was sent through the sync, asyncio and REST paths",
+               not missing or not drives, f"paths without such a call: {missing}", "T2")
     return pending
 
 
 def witness_repeated(ctx):
-    """The witness of the two _refuted statements, replayed: a repeated string UUID4 field is accepted and populated with characters."""
+    """The former gap (fixed by /repo 0fe08e8; Example former_gap_closed): method settings naming a REPEATED string UUID4 field
+    must be rejected at generation time. Replayed in every run; a library coming out of it is reported with the old signature."""
     main = File("google/example/library/v1/library.proto", PKG, deps=list(apigen.STD_DEPS) + ["google/api/field_info.proto"])
     book = main.message("Book").field("name", 1, "string")
     rq = main.message("CreateBookRequest").field("parent", 1, "string").field("request_ids", 2, "string", repeated=True, uuid4=True)
@@ -693,24 +705,11 @@ def witness_repeated(ctx):
     res, err = gen.run_generator(req)
     ctx.case({"witness": "repeated-string"}, feature=["witness-repeated-string"])
     case = {"kind": "witness-repeated", "request_b64": apigen.req_b64(req), "settings": settings}
+    ctx.oblige("former gap (repeated string UUID4 field) stays closed: generation fails with MethodSettingsError",
+               res is None and "MethodSettingsError" in err and "not of type string" in err, err[-300:] if res is None else "a library was generated", "T2")
     if res is None:
-        ctx.oblige("witness repeated string field: the implementation accepts it, as the _refuted lemma says", False, err[-300:], "T2")
         return []
-    root = gen.materialize(res, gen.case_dir("c18witnessroot"))
-    D = dyn.Dyn(req)
-    msg = D.new(rq.fqn.lstrip("."))
-    msg.parent = "projects/p"
-    out = gen.impl("drive", {"root": root, "package": "google.example.library_v1", "calls": [
-        {"service_module": "library", "client": "LibraryClient", "transport": "grpc", "method": "create_book",
-         "request": {"mode": "message", "cls": "google.example.library_v1.types:CreateBookRequest", "b64": dyn.Dyn.b64(msg)}}]})[0]
-    gen.rm(root)
-    sent = list(D.parse(rq.fqn.lstrip("."), out["grpc_calls"][0]["requests"][0]).request_ids) if out.get("grpc_calls") else None
-    joined = "".join(sent) if sent else ""
-    ok = bool(sent) and all(len(x) == 1 for x in sent) and bool(UUID4.match(joined))
-    ctx.oblige("witness repeated string field: accepted, and populated with the characters of a uuid, as the _refuted lemmas say", ok, json.dumps(sent)[:300], "T2")
-    case["sent"] = sent
-    return [(SIG_REPEATED, "method settings naming a REPEATED string field (format UUID4) are accepted although the field is not a string, "
-             f"and the call sends {len(sent or [])} one-character elements instead of one version-4 UUID", case)]
+    return [(SIG_REPEATED, "method settings naming a REPEATED string field (format UUID4) are accepted although the field is not a string", case)]
 
 
 def witness_oneof(ctx):
